@@ -16,7 +16,7 @@ TEXT = {
   "note": _T, "ref": "DESIGN.md 4/C03",
  },
  "C04": {
-  "technique": "property-based testing (rapid): generated pages with class-A/class-B carriers at every placement; oracle = carrier tokens absent from Text and from serialised HTML outside placeholders",
+  "technique": "property-based testing (rapid): generated pages with class-A/class-B carriers at every placement; oracle = carrier tokens absent from Text and from serialised HTML outside placeholders; thorough tier adds coverage-guided go fuzzing of the generator's bit-stream (rapid.MakeFuzz, same oracle)",
   "level": "Exploration: thousands of generated pages per run with carriers at every placement the property lists; the oracle searches both views (text tokens, attribute values, script bodies, comments) for carrier tokens.",
   "note": _T + " Only the hiding spellings the property names are generated.", "ref": "DESIGN.md 4/C04",
  },
@@ -26,7 +26,7 @@ TEXT = {
   "note": _T, "ref": "DESIGN.md 4/C05",
  },
  "C06": {
-  "technique": "property-based testing (rapid): URL references of every form built together with their expected resolution (by construction, no net/url); oracle = equality of every URL attribute and ContentImages entry with the constructed expectation",
+  "technique": "property-based testing (rapid): URL references of every form built together with their expected resolution (by construction, no net/url); oracle = equality of every URL attribute and ContentImages entry with the constructed expectation; thorough tier adds coverage-guided go fuzzing of the generator's bit-stream (rapid.MakeFuzz, same oracle)",
   "level": "Exploration: thousands of generated pages per run with a page URL assembled from parts; every href/src/srcset candidate/poster outside placeholders and every ContentImages entry is traced to its origin by a unique token and compared with the expected absolute or pass-through value.",
   "note": _T + " <base href> is never generated.", "ref": "DESIGN.md 4/C06",
  },
@@ -46,7 +46,7 @@ TEXT = {
   "note": _T + " Placeholder content is excluded from the text/HTML comparison.", "ref": "DESIGN.md 4/C09",
  },
  "C01": {
-  "technique": "property-based testing (rapid) over hand-built node trees and mutated byte streams with a panic/hang/well-formedness oracle; native coverage-guided go fuzzing (same oracle) in the thorough tier",
+  "technique": "property-based testing (rapid) over hand-built node trees, structurally mutated page trees, URL-structure pagers, mutated byte streams and a loopback ApplyForURL server, with a panic/hang/well-formedness oracle; native coverage-guided go fuzzing (same oracle) in the thorough tier",
   "level": "Exploration: tens of thousands of hand-built trees (all root kinds, odd node types, depth up to 2000) and byte streams per run across the options cross-product, each call under recover and a 30 s watchdog; the thorough tier adds coverage-guided fuzzing of ApplyForReader and of the tree generator's bit-stream on 16 workers.",
   "note": "Node graphs are acyclic and non-nil; a process-fatal crash is attributed to the case persisted just before execution; the watchdog bound (30 s) is an assumption about what counts as a hang on bounded inputs.",
   "ref": "DESIGN.md 4/C01",
@@ -57,7 +57,7 @@ TEXT = {
   "note": "ApplyForURL only against a loopback httptest server; pages come from the DocModel/PagerModel grammars.", "ref": "DESIGN.md 4/C10",
  },
  "C11": {
-  "technique": "stateful property-based testing (rapid): repeated runs and generated call histories over document/option pools; oracle = every result equals the first result of its (document, options) pair; differential between Apply, ApplyForReader and ApplyForFile",
+  "technique": "stateful property-based testing (rapid): repeated runs and generated call histories over document/option pools; oracle = every result equals the first result of its (document, options) pair; differential between Apply, ApplyForReader and ApplyForFile; metamorphic renaming invariance against state kept from earlier calls; differential between fresh processes for state left by the first call of a process",
   "level": "Exploration: hundreds to thousands of pools per run, each pair executed >=8 times plus an interleaved history; map-iteration orders are sampled by repetition.",
   "note": "A two-way map-order choice escapes one evaluation with probability 2^-7 at worst; there is no control over the runtime's map iteration order.", "ref": "DESIGN.md 4/C11",
  },
@@ -72,7 +72,7 @@ TEXT = {
   "note": "Results are compared only between runs with the same page URL.", "ref": "DESIGN.md 4/C13",
  },
  "C16": {
-  "technique": "property-based testing (rapid): generated pagers mixing pattern links with placeholder, off-site, look-alike, userinfo, other-scheme and malformed anchors; oracle = validity predicate on PaginationInfo (http(s), same host, target of a document anchor)",
+  "technique": "property-based testing (rapid): generated pagers mixing pattern links with placeholder, off-site, look-alike, userinfo, other-scheme and malformed anchors; oracle = validity predicate on PaginationInfo (http(s), same host, target of a document anchor); thorough tier adds coverage-guided go fuzzing of the generator's bit-stream (rapid.MakeFuzz, same oracle)",
   "level": "Exploration: tens of thousands of generated pagers per run over 7 URL families and both algorithms.",
   "note": "Anchor targets are resolved by the harness with net/url; page URLs are http(s).", "ref": "DESIGN.md 4/C16",
  },
@@ -82,12 +82,12 @@ TEXT = {
   "note": "Domain restricted to one-pattern pagers with neutral URL words and plain Prev/Next labels, as the property states.", "ref": "DESIGN.md 4/C17",
  },
  "C14": {
-  "technique": "property-based testing (rapid): structured markup specifications rendered as a full page and three single-source pages; oracles = metamorphic precedence fold of the single-source results plus by-construction reference for OpenGraph qualification, opt-out and per-source pins",
+  "technique": "property-based testing (rapid): structured markup specifications rendered as a full page and three single-source pages; oracles = metamorphic precedence fold of the single-source results plus by-construction reference for OpenGraph qualification, opt-out and per-source pins; thorough tier adds coverage-guided go fuzzing of the generator's bit-stream (rapid.MakeFuzz, same oracle)",
   "level": "Exploration: thousands of generated specifications per run (four pages each) over present/absent/partial OpenGraph, schema.org and IE Reading View markup in drawn interleavings.",
   "note": "The fold oracle trusts that the three sources do not read each other's markup (the renderings are built so); og:type precedes type-dependent OpenGraph properties.", "ref": "DESIGN.md 4/C14",
  },
  "C15": {
-  "technique": "property-based testing (rapid): <title> strings from a grammar with headings and markup titles; oracle = membership of Title in {markup title, contiguous part of <title>, first h1}, exactness clause, and a control/treatment pair for title repetition",
+  "technique": "property-based testing (rapid): <title> strings from a grammar with headings and markup titles; oracle = membership of Title in {markup title, contiguous part of <title>, first h1}, exactness clause, and a control/treatment pair for title repetition; thorough tier adds coverage-guided go fuzzing of the generator's bit-stream (rapid.MakeFuzz, same oracle)",
   "level": "Exploration: thousands of generated titles per run over lengths, 13 separators, hierarchy forms, h1/h2 relations and markup titles; the repetition clause is decided by a metamorphic pair that differs in one word.",
   "note": "Title words are unique tokens; IE_RM_OFF with a markup title is outside the generated domain.", "ref": "DESIGN.md 4/C15",
  },
@@ -97,7 +97,7 @@ TEXT = {
   "note": "Features are computed from the parsed table by their definition; the internal classifier verdict is the observation point the property names.", "ref": "DESIGN.md 4/C18",
  },
  "C19": {
-  "technique": "property-based testing (rapid): embed sources built from hosts whose allow-list status is known by construction; oracle = every placeholder traces to an allow-listed true host with the constructed type and id, no frame survives outside placeholders",
+  "technique": "property-based testing (rapid): embed sources built from hosts whose allow-list status is known by construction; oracle = every placeholder traces to an allow-listed true host with the constructed type and id, no frame survives outside placeholders; thorough tier adds coverage-guided go fuzzing of the generator's bit-stream (rapid.MakeFuzz, same oracle)",
   "level": "Exploration: tens of thousands of generated pages per run over 30 host forms x schemes x path shapes x 5 tag kinds.",
   "note": "Only the 'only if' direction of acceptance is asserted.", "ref": "DESIGN.md 4/C19",
  },
